@@ -14,7 +14,7 @@ PROP = {
                    "seeded irregular scripts, schedules and message lists (0 B .. 64 KiB). WebSocket: compio-ws inside a "
                    "compio runtime (io_uring and poll drivers) over a fragmenting relay thread between two socket pairs "
                    "(unix/TCP, minimal socket buffers), plain and TLS-wrapped, seeded relay scripts and message lists "
-                   "(text/binary/ping, 0 B .. 1 MiB, half and full duplex, close from either side). Verdicts are logical "
+                   "(text/binary/ping, 0 B .. 1 MiB, half duplex and full duplex through split() with the halves joined in one task or in two tasks, close from either side). Verdicts are logical "
                    "(executor deadlock detection / relay-probe quiescence), never by time. Exhaustive inside the stated "
                    "script family for TLS, exploration for everything seeded and for WebSocket; not a proof for all schedules."),
     "level_note": ("Trusted: OpenSSL, rustls, ring, tungstenite protocol logic; the harness duplex/executor/relay. "
